@@ -24,6 +24,7 @@ EXPLANATION = (
     'agreement between the declared payload hash / content length and the content handed to the HTTP client, structural comparison of the five SigV4 building '
     'blocks with the published algorithm (field order of canonical request and string to sign, HMAC chain, scope, authorization header), and the encoder per URL '
     'component (path: quote once with "/" safe; query: sorted, percent-encoded with %20 semantics). Rules C16.R1-R4.'
+    ' Added with the seeded-defect rounds: only requests built by _prepare_request leave the client (no follow_redirects / auth / verb helpers), transfer unit >= 1 (shared with C20), joined strings returned unprocessed; fallback to the whole-pipeline term digest of the design tree when the helper anchors are restructured.'
 )
 NOT_DECIDED = 'whether the HTTP library re-encodes the URL it is given (third-party behaviour); signatures are not recomputed on concrete inputs'
 TRUSTED = ['the published AWS Signature Version 4 algorithm as frozen in this module', 'hashlib / hmac', 'CPython ast']
